@@ -490,7 +490,10 @@ class RemoteWorker(Worker, metaclass=RemoteWorkerMeta):
             self._remote_side = True
             self._is_backend = False
 
-            logger.debug('Client data socket is: {}', self._socket.getpeername())
+            try:
+                logger.debug('Client data socket is: {}', self._socket.getpeername())
+            except OSError as e: # the client has reset the connection in the meantime (ENOTCONN)
+                raise ConnectionClosedError() from e
             logger.debug('Creating a control socket for this connection...')
             self._ctrl_sock = socket.socket(socket.AF_INET, socket.SOCK_STREAM)
             self._ctrl_sock.bind((self._socket.getsockname()[0], 0))
